@@ -1533,6 +1533,10 @@ def _avoid_ambiguous(model, ops):
         own = {t.name for _, u in model.units() for t in u.toks if t.kind == "label" and any(t.att is s2 for s2 in chain)}
         lst2 = model.span_list[sp.sect]
         nxt = lst2[sp.order + 1] if sp.order + 1 < len(lst2) else None
+        # (a kept zero-sized block is not where the label comes to rest: it
+        # designates the next byte, which may belong to another function)
+        while nxt is not None and nxt.size == 0:
+            nxt = lst2[nxt.order + 1] if nxt.order + 1 < len(lst2) else None
         if own & call_targets and (nxt is None or nxt.func != sp.func):
             ops[oi]["_drop"] = True
     # a block deleted with retarget_to_proxy that calls itself: whether the
